@@ -23,14 +23,22 @@ open WebrtcVerif.ConnState (Ice Dtls Pc aggregate)
 
 /-! ## all calls return -/
 
-/-- No deadlock: while some close() caller has not returned, some close() caller can take a step
-    (a caller blocked on `<-isCloseDone` / `<-isGracefulCloseDone` is always waiting for a caller that
-    can run).  Each step is an atomic section or a call that is assumed to return: transport `Stop`s,
-    `ops.GracefulClose()` (C05), interceptor `Close`. -/
+/-- No deadlock: while some close() caller has not returned, a progress action is enabled: a step of some
+    close() caller, or — when a GracefulClose is joining the data-channel read loops — the application's
+    OnMessage handler returning / a read loop ending.  (A caller blocked on `<-isCloseDone` /
+    `<-isGracefulCloseDone` is always waiting for a caller that can run; a caller blocked on a
+    `<-readLoopActive` is waiting for a live read loop, which can.)  Each caller step is an atomic section
+    or a call that is assumed to return: transport `Stop`s, `ops.GracefulClose()` (C05), interceptor
+    `Close`; that the application's handlers return is the application's part. -/
 theorem C21_no_deadlock {gs : List Bool} {nu : Nat} {c0 : Pc} {s : St} (h : Reachable gs nu c0 s)
     (c : Nat) (cl : Closer) (hcl : s.closers[c]? = some cl) (hnr : cl.pc ≠ .returned) :
-    ∃ c', (step s (.cstep c')).isSome = true :=
+    ∃ a, a.isProgress = true ∧ (step s a).isSome = true :=
   progress (closeInv_of_reachable h) hcl hnr
+
+/-- Every progress action (caller step, handler return, read loop end) decreases `totalMeasure`. -/
+theorem C21_progress_decreases {s s' : St} {a : Action} (ha : a.isProgress = true) (h : step s a = some s') :
+    totalMeasure s' < totalMeasure s :=
+  progress_decreases ha h
 
 /-- Termination: every step of a close() caller decreases `measure` (the number of steps the callers
     still have to take), and no other action touches the callers. -/
@@ -48,11 +56,12 @@ theorem C21_caller_steps_bounded {s s' : St} {cs : List Nat} (h : runActions s (
     cs.length + measure s' ≤ measure s :=
   run_csteps_bound h
 
-/-- All return: from every reachable state the callers can be run to completion, in at most `measure s`
-    steps, and then every one of them has returned.  (With `C21_no_deadlock` and
-    `C21_caller_step_decreases`: every maximal run ends with all callers returned.) -/
+/-- All return: from every reachable state the system can be run to completion by at most `totalMeasure s`
+    progress actions, and then every caller has returned.  (With `C21_no_deadlock` and
+    `C21_progress_decreases`: every maximal run of progress actions ends with all callers returned.) -/
 theorem C21_all_return {gs : List Bool} {nu : Nat} {c0 : Pc} {s : St} (h : Reachable gs nu c0 s) :
-    ∃ cs : List Nat, ∃ s', runActions s (cs.map .cstep) = some s' ∧ cs.length ≤ measure s
+    ∃ as : List Action, ∃ s', runActions s as = some s' ∧ as.length ≤ totalMeasure s
+      ∧ (∀ a ∈ as, a.isProgress = true)
       ∧ ∀ (c : Nat) (cl : Closer), s'.closers[c]? = some cl → cl.pc = .returned :=
   exists_completion (closeInv_of_reachable h)
 
@@ -74,7 +83,7 @@ theorem C21_single_main {gs : List Bool} {nu : Nat} {c0 : Pc} {s : St} (h : Reac
   exact Option.some.inj b
 
 /-- The body steps executed so far (by whichever callers) are a prefix of the source order
-    sig · media · channels · sctp · dtls · ice · update · store · graceful · finish: each step at most
+    sig · media · channels · sctp · dtls · ice · update · store · graceful · join · finish: each step at most
     once, in order. -/
 theorem C21_body_once {gs : List Bool} {nu : Nat} {c0 : Pc} {s : St} (h : Reachable gs nu c0 s) :
     ∃ n, s.bodyLog = BStep.canon.take n := by
@@ -185,6 +194,9 @@ theorem C21_flags_monotone {s s' : St} {a : Action} (hs : step s a = some s') :
   | uStore u => simp only [step] at hs; split at hs <;> cases hs; exact ⟨id, id, id, id⟩
   | api a env => simp only [step, Option.some.injEq] at hs; subst hs; exact ⟨id, id, id, id⟩
   | env ice dtls => simp only [step, Option.some.injEq] at hs; subst hs; exact ⟨id, id, id, id⟩
+  | lDeliver l => simp only [step] at hs; split at hs <;> (try split at hs) <;> cases hs; exact ⟨id, id, id, id⟩
+  | lReturn l => simp only [step] at hs; split at hs <;> cases hs; exact ⟨id, id, id, id⟩
+  | lExit l => simp only [step] at hs; split at hs <;> cases hs; exact ⟨id, id, id, id⟩
 
 /-- After the main body: signaling state closed, connection state closed, everything stopped. -/
 theorem C21_final_after_body {gs : List Bool} {nu : Nat} {c0 : Pc} {s : St} (h : Reachable gs nu c0 s)
@@ -204,10 +216,10 @@ theorem C21_final_after_body {gs : List Bool} {nu : Nat} {c0 : Pc} {s : St} (h :
       have hok := hi.each m clm hclm
       have hl := hok.mainLog hrm
       rw [hb] at hl
-      have hp : prog clm.pc = 10 := by
+      have hp : prog clm.pc = 11 := by
         have := congrArg List.length hl
         simp [BStep.canon] at this
-        have hle : prog clm.pc ≤ 10 := by cases clm.pc <;> simp [prog]
+        have hle : prog clm.pc ≤ 11 := by cases clm.pc <;> simp [prog]
         omega
       rw [hok.mainIcpt hrm, hp]; rfl
 
@@ -232,11 +244,15 @@ theorem C21_final_when_all_returned {gs : List Bool} {nu : Nat} {c0 : Pc} {s : S
   exact ⟨final_of_body_complete hi hb, hb, hcd⟩
 
 /-- When a GracefulClose call has returned, the main body is complete, the graceful tail has run exactly
-    once and isGracefulCloseDone is closed — whichever of the three graceful continuations the caller took. -/
+    once, isGracefulCloseDone is closed — whichever of the three graceful continuations the caller took —
+    and every goroutine the model accounts for has ended: every data-channel read loop (including one
+    that was busy inside the application's OnMessage handler when the close started), the operations
+    worker (ops.GracefulClose returned, C05), the ICE agent's (GracefulStop returned). -/
 theorem C21_final_when_graceful_returned {gs : List Bool} {nu : Nat} {c0 : Pc} {s : St}
     (h : Reachable gs nu c0 s) (c : Nat) (cl : Closer) (hcl : s.closers[c]? = some cl)
     (hg : cl.g = true) (hr : cl.pc = .returned) :
-    Final s ∧ s.bodyLog = BStep.canon ∧ s.opsCloses = 1 ∧ s.gracefulDone = true := by
+    Final s ∧ s.bodyLog = BStep.canon ∧ s.opsCloses = 1 ∧ s.gracefulDone = true
+      ∧ allExited s.loops = true ∧ s.iceGracefulStops = 1 := by
   have hi := closeInv_of_reachable h
   have hok := hi.each c cl hcl
   have hgd : s.gracefulDone = true := by
@@ -248,7 +264,22 @@ theorem C21_final_when_graceful_returned {gs : List Bool} {nu : Nat} {c0 : Pc} {
     · have := hok.ownerGDone (by simp [isOwner]); simpa [pastDG] using this
     · have := hok.ownerGDone (by simp [isOwner]); simpa [pastDG] using this
   have hb := body_complete_of_gracefulDone hi hgd
-  exact ⟨final_of_body_complete hi hb.1, hb.1, hb.2, hgd⟩
+  exact ⟨final_of_body_complete hi hb.1, hb.1, hb.2, hgd, joined_of_gracefulDone hi hgd, by rw [hi.g.iceG, hb.2]⟩
+
+/-- A GracefulClose never returns while a read loop goroutine is alive — stated on the loops: as long as
+    some read loop has not ended (for instance because the application's handler has not returned), no
+    GracefulClose caller is in the `returned` state. -/
+theorem C21_graceful_waits_for_read_loops {gs : List Bool} {nu : Nat} {c0 : Pc} {s : St}
+    (h : Reachable gs nu c0 s) (l : Nat) (x : LPc) (hl : s.loops[l]? = some x) (hx : x ≠ .exited)
+    (c : Nat) (cl : Closer) (hcl : s.closers[c]? = some cl) (hg : cl.g = true) : cl.pc ≠ .returned := by
+  intro hr
+  have := (C21_final_when_graceful_returned h c cl hcl hg hr).2.2.2.2.1
+  exact hx (allExited_getElem this hl)
+
+/-- … and ended read loops stay ended (no goroutine is started after the close). -/
+theorem C21_read_loops_stay_ended {s s' : St} {a : Action} (hs : step s a = some s')
+    (he : allExited s.loops = true) : allExited s'.loops = true :=
+  allExited_step hs he
 
 /-- Final means final: once signaling and connection state are closed, no action of any thread — further
     Close/GracefulClose calls, late transport callbacks, API calls — changes the signaling state, the
@@ -314,7 +345,7 @@ theorem C21_last_report_is_closed {gs : List Bool} {nu : Nat} {c0 : Pc} {s : St}
     tail), caller 2 a waiter; the late callback stores nothing. -/
 example : (runActions (init [false, true, true] 1 .connected)
     ([.uCompute 0 .failed .connected, .cstep 0, .cstep 1, .cstep 2, .cstep 1, .cstep 2] ++
-      List.replicate 12 (.cstep 0) ++ [.uStore 0] ++ List.replicate 4 (.cstep 1) ++ List.replicate 2 (.cstep 2))).map
+      List.replicate 13 (.cstep 0) ++ [.uStore 0] ++ List.replicate 5 (.cstep 1) ++ List.replicate 2 (.cstep 2))).map
       (fun s => (s.closers.map (·.pc), s.closers.map (·.role), s.notified, s.conn == .closed && s.sigClosed && s.opsCloses == 1))
     = some ([.returned, .returned, .returned], [.main, .tailer, .waiter], [.closed], true) := by
   decide
@@ -330,13 +361,28 @@ example : (runActions (init [false, false] 0 .new) [.cstep 0, .cstep 1, .cstep 1
 /-- Why the re-check matters: the same system WITHOUT the re-read of isClosed (`retest := false`, the code
     before the repair): the callback that computed `failed` stores and reports it after `closed`. -/
 example : (runActions { init [false] 1 .new with retest := false }
-    ([.uCompute 0 .failed .new] ++ List.replicate 13 (.cstep 0) ++ [.uStore 0])).map
+    ([.uCompute 0 .failed .new] ++ List.replicate 14 (.cstep 0) ++ [.uStore 0])).map
       (fun s => (s.closers.map (·.pc), s.conn, s.notified, closedFinal s.notified))
     = some ([.returned], .failed, [.closed, .failed], false) := by
   decide
 
+/-- GracefulClose during data transfer: the read loop of the open data channel is inside the application's
+    handler.  The caller runs up to the join and is then disabled (11th step); a plain Close in parallel
+    returns at once; only after the handler has returned and the read loop has ended can the GracefulClose
+    finish. -/
+example : (runActions (init [true, false] 0 .connected [.handler]) (List.replicate 11 (.cstep 0))).map
+      (fun s => (s.closers.map (·.pc), (step s (.cstep 0)).isSome, s.loops))
+    = some ([.bJoin, .idle], false, [.handler]) := by
+  decide
+
+example : (runActions (init [true, false] 0 .connected [.handler])
+    (List.replicate 11 (.cstep 0) ++ [.cstep 1, .cstep 1, .lReturn 0, .lExit 0] ++ List.replicate 4 (.cstep 0))).map
+      (fun s => (s.closers.map (·.pc), s.loops, s.opsCloses))
+    = some ([.returned, .returned], [.exited], 1) := by
+  decide
+
 /-- hypotheses of `C21_api_rejects` are satisfiable: after one Close every entry point is rejected -/
-example : (runActions (init [false] 0 .new) (List.replicate 13 (.cstep 0) ++
+example : (runActions (init [false] 0 .new) (List.replicate 14 (.cstep 0) ++
       Api.all.map (fun a => .api a { hasRemoteDescription := true }))).map
       (fun s => (s.apiLog.map (·.2.isInvalidState), s.negVersion))
     = some (List.replicate 10 true, 0) := by
